@@ -3,6 +3,11 @@ package security
 // C15 — user tokens verify only if minted under the configured keys and unexpired.
 // C12 — query tokens (signed host selection): QueryInfo.
 
+import (
+	"github.com/bolkedebruin/rdpgw/cmd/rdpgw/identity"
+	"github.com/bolkedebruin/rdpgw/cmd/rdpgw/protocol"
+)
+
 //vp:property C15
 //vp:set s 2 3
 //vp:bounds both key modes (encrypt-only: signing key empty; sign-and-encrypt) plus the corner "encryption key empty, signing key set"; token class: not a JWE / plain JWE / nested JWE; encrypted and (inner) signed under any gateway key or a foreign key; inner alg any of {HS256,none,HS384,HS512,RS256,""}; issuer "rdpgw"/any 5 bytes/empty; exp/nbf/iat absent or any second; now any second 2001..2100
@@ -122,4 +127,34 @@ func VP_C12_queryinfo() {
 		vpAssert(int64(*vpTokExp) >= now-60, "query-token-not-expired-beyond-leeway")
 	}
 	vpAssert(host == vpTokSubject, "host-is-the-verified-subject")
+}
+
+//vp:property C12
+//vp:set hosts 2 3
+//vp:set affix 1 2
+//vp:set user 2 3
+//vp:bounds selection mode in {roundrobin, unsigned, any}; 1..hosts entries prefix++[placeholder]++suffix; non-empty user name <= user bytes; the file's host = chosen entry with the user substituted (any mode: arbitrary host <= 4 bytes); same client address at issuance and use; both VerifyClientIP settings
+//vp:assume the IdP's userinfo subject equals the session user name (DESIGN 7.14): the tunnel user is taken from the IdP, the file host from the session
+//vp:reach accepted
+func VP_C12_accept() {
+	mode := []string{"roundrobin", "unsigned", "any"}[vpIntRange("mode", 0, 2)]
+	HostSelection = mode
+	Hosts = vpHostList(vpIntRange("nhosts", 1, vpParam("hosts")), vpParam("affix"))
+	user := vpString("user", vpParam("user"))
+	vpAssume(user != "")
+	VerifyClientIP = vpBool("verify")
+	sel := Hosts[vpIntRange("pick", 0, len(Hosts)-1)]
+	if mode == "any" {
+		sel = vpString("anyhost", 4)
+	}
+	fileHost := vpReplaceFirst(sel, vpPlaceholder, user) // what the download handler puts into file and token
+	ip := vpStringN("ip", 2)
+	// what CheckPAACookie leaves in the tunnel after accepting the token minted for that file
+	id := identity.NewUser()
+	id.SetUserName(user)
+	id.SetAttribute(identity.AttrClientIp, ip)
+	tun := &protocol.Tunnel{User: id, TargetServer: fileHost, RemoteAddr: ip}
+	ok, _ := CheckSession(CheckHost)(vpCtxWith(tun, id), fileHost)
+	vpReach("accepted")
+	vpAssert(ok, "host-and-token-of-an-issued-file-are-accepted-by-the-tunnel-checks")
 }
